@@ -801,6 +801,10 @@ impl SvcParamValue {
             // The wire format of the SvcParamValue is the corresponding 2 octet
             // numeric value in network byte order.
             SvcParamKey::Port => {
+                if len != 2 {
+                    return Err(DecodeError::IncorrectRDataLengthRead { read: len, len: 2 });
+                }
+
                 let port = decoder.read_u16()?.unverified(/*all values are legal ports*/);
                 Self::Port(port)
             }
